@@ -228,6 +228,7 @@ func runC03(c *Ctx, r *Rec) {
 	checkReceiverWrites(c, r, "D1-receiver-writes-persist", cat)
 	checkAssociationKeyFrozen(c, r, "D1-association-key-frozen")
 	checkResetCompleteness(c, r, "D1-reset-complete", cat)
+	checkReadersWriteNothing(c, r, "D1-readers-write-nothing", cat)
 	checkTypeLockPairing(c, r, "D1-lock-released", cat)
 	checkNoDynamicEquality(c, r, "D2-no-dynamic-equality", fileFuncs(c, "collection", cat))
 	checkNoReadBackOfRangedMap(c, r, "D1-values-from-the-ranged-pairs", fileFuncs(c, "collection", cat))
